@@ -83,6 +83,75 @@ def inproc_counting(kind, mx, jit, nconn, seed, failing=False):
         {"where": "inproc-failing" if failing else "inproc", "kind": kind, "limit": limit, "nr": w.nr, "served": len(calls)}
 
 
+def inproc_race(mx, seed):
+    """threaded worker: two pool threads handle the request that reaches the limit and the next one AT ONCE - both have
+    counted their request (`self.nr += 1`) before either looks at the limit.  The schedule is forced (a line tracer parks
+    the first thread on the statement after the increment until the second one has reached it too; then one runs to the
+    end, then the other), so the run is deterministic.  -> (trace, meta) or None when the counting statement is not found"""
+    import inspect
+    import sys
+    import threading
+    from gunicorn.workers import gthread as g
+    try:
+        src, first = inspect.getsourcelines(g.ThreadWorker.handle_request)
+    except (OSError, TypeError):
+        return None
+    inc = [i for i, ln in enumerate(src) if ln.strip().replace(" ", "") == "self.nr+=1"]
+    if len(inc) != 1:
+        return None
+    incline = first + inc[0]
+    code = g.ThreadWorker.handle_request.__code__
+
+    def app(environ, start_response):
+        start_response("200 OK", [("Content-Length", "2")])
+        return [b"ok"]
+    cfg = cdrv.make_cfg(max_requests=mx, max_requests_jitter=0, keepalive=2)
+    w = cdrv.make_worker("gthread", cfg, app)
+    ev = []
+    for i in range(mx - 1):
+        r = cdrv.serve("gthread", cfg, [b"GET /%d HTTP/1.1\r\nHost: h\r\n\r\n" % i], app, worker=w, eof_dispatch=True)
+        ev.append({"e": "resp", "ok": bool(r.wire.startswith(b"HTTP/1.1 200 OK") and r.escaped is None), "pid": 1})
+    reached = {k: threading.Event() for k in ("a", "b")}
+    go = {k: threading.Event() for k in ("a", "b")}
+    res = {}
+
+    def runner(k):
+        parked = []
+
+        def local(frame, event, arg):
+            if event == "line" and not parked and frame.f_lineno > incline:
+                parked.append(1)
+                reached[k].set()
+                go[k].wait(20)
+            return local
+
+        def tracer(frame, event, arg):
+            return local if frame.f_code is code else None
+        sys.settrace(tracer)
+        try:
+            res[k] = cdrv.serve("gthread", cfg, [b"GET /%s HTTP/1.1\r\nHost: h\r\n\r\n" % k.encode()], app, worker=w, eof_dispatch=True)
+        finally:
+            sys.settrace(None)
+            reached[k].set()
+    ta = threading.Thread(target=runner, args=("a",))
+    tb = threading.Thread(target=runner, args=("b",))
+    ta.start()
+    reached["a"].wait(20)           # a has counted its request (the one that reaches the limit) and not yet compared
+    tb.start()
+    reached["b"].wait(20)           # b has counted the next one
+    go["a"].set()
+    ta.join(30)
+    go["b"].set()
+    tb.join(30)
+    for k in ("a", "b"):
+        r = res.get(k)
+        ev.append({"e": "resp", "ok": bool(r is not None and r.wire.startswith(b"HTTP/1.1 200 OK") and r.escaped is None), "pid": 1})
+    ev.append({"e": "end", "alive": [1] if w.alive else [2], "initial": [1]})
+    # (one request was in flight beside the one that reached the limit)
+    return {"max": mx, "jit": 0, "allow": 1, "workers": 1, "npids": 2, "initial": [1], "ev": ev}, \
+        {"where": "inproc-race", "kind": "gthread", "limit": w.max_requests, "nr": w.nr, "served": mx + 1}
+
+
 class _Listener:
     def __init__(self, conns):
         self.conns = list(conns)
@@ -383,6 +452,15 @@ def c18(ctx):
                 t, m = inproc_counting(kind, mx, jit, 12, rng.randrange(10 ** 6), failing=True)
                 traces.append(t)
                 metas.append(m)
+    # two pool threads of the threaded worker count their requests before either compares the count with the limit
+    nrace = 0
+    for mx in (1, 2, 3, 5):
+        tm = inproc_race(mx, rng.randrange(10 ** 6))
+        if tm is not None:
+            traces.append(tm[0])
+            metas.append(tm[1])
+            nrace += 1
+    ctx.coverage["forced_thread_interleavings"] = nrace
     for mx in (0, 1, 2, 3, 7):
         for jit in (0, 2):
             for nl in (1, 2, 3):
